@@ -148,8 +148,7 @@ func checkEnergy(c energyCase, o *kit.Obs) error {
 			pi = i
 		}
 	}
-	wu := 0.5
-	g := newGrid(lobes[pi], wu, gridKV, gridNPhi)
+	g := newGrid(lobes[pi], gridBulk, 8, gridNPhi)
 	q := &integ{f: f, maxEvals: 4000000, maxDepth: 8}
 	for i, l := range lobes {
 		if i != pi && l.sigma() < 0.35 {
